@@ -11,6 +11,7 @@ import (
 	"math/rand/v2"
 
 	"github.com/oasisprotocol/curve25519-voi/internal/field"
+	"github.com/oasisprotocol/curve25519-voi/zzverif/gen"
 	"github.com/oasisprotocol/curve25519-voi/zzverif/mon"
 	"github.com/oasisprotocol/curve25519-voi/zzverif/ref"
 )
@@ -345,6 +346,38 @@ func (x *ctx) api(rng *rand.Rand) {
 			x.expect("SqrtRatioI/root", &out, root, det)
 			x.expectBool("SqrtRatioI/flag", flag == 1, was, det)
 			x.r.Hist(fmt.Sprintf("sqrtratio/flag=%v/u0=%v/v0=%v", was, mod(u.val).Sign() == 0, mod(v.val).Sign() == 0))
+		}
+	}
+	// values and pairs that fool checksum-style predicates (package gen: CancelPatterns): non-zero elements whose
+	// words cancel, and distinct elements whose difference does
+	for _, d := range gen.CancelPatterns(rng, 240) {
+		v := fromBytes(d)
+		v.src = "cancelling-words"
+		a := fromBytes(mon.Bytes(rng, 32))
+		ab := make([]byte, 32)
+		copy(ab, toBytes(&a.fe))
+		bx := fromBytes(gen.XorBytes(ab, d))
+		bs := fromBig(new(big.Int).Add(a.val, v.val))
+		for _, pr := range [][2]Elem{{v, fromBig(big.NewInt(0))}, {a, bx}, {a, bs}, {bx, bs}} {
+			x.ops(pr[0], pr[1], dom{read: true}, rng)
+			x.ops(pr[1], pr[0], dom{read: true}, rng)
+		}
+	}
+	// values whose low limbs are saturated just below the point where adding 19 carries out of them
+	// (t*2^k + 2^k - 19 + j, k at every limb boundary of both backends): parity / sign and canonical encoding
+	for _, k := range []uint{26, 51, 77, 102, 128, 153, 179, 204, 230, 255} {
+		for j := int64(-2); j < 21; j++ {
+			t := new(big.Int).SetBytes(mon.Bytes(rng, 32))
+			if k == 255 {
+				t.SetInt64(0)
+			}
+			v := new(big.Int).Lsh(t, k)
+			v.Add(v, new(big.Int).Lsh(big.NewInt(1), k))
+			v.Add(v, big.NewInt(j-19))
+			v.And(v, new(big.Int).Sub(new(big.Int).Lsh(big.NewInt(1), 255), big.NewInt(1)))
+			e := fromBig(v)
+			e.src = "saturated-low-limbs"
+			x.ops(e, fromBig(new(big.Int).Neg(v)), dom{read: true, add: true}, rng)
 		}
 	}
 	// BatchInvert with zeros inside
